@@ -742,29 +742,7 @@ func ruleQueryPairwise(r *core.Reporter) {
 		r.Analysed(fn)
 		for _, c := range unesc {
 			n++
-			var leaves []ssa.Value
-			phiLeaves(c.Call.Args[0], map[ssa.Value]bool{}, &leaves)
-			fromSplit, raw := false, false
-			for _, l := range leaves {
-				if _, isParam := l.(*ssa.Parameter); isParam {
-					raw = true
-				}
-				if e, ok := l.(*ssa.Extract); ok {
-					if sc, ok := e.Tuple.(*ssa.Call); ok && ir.IsCallTo(sc, "strings.Cut") {
-						// the "after" part of the pair separator cut is still the raw remainder
-						if s, okc := ir.ConstString(sc.Call.Args[1]); okc && s == "&" && e.Index == 1 {
-							raw = true
-						} else {
-							fromSplit = true
-						}
-					}
-				}
-				if u, ok := l.(*ssa.UnOp); ok && u.Op == token.MUL {
-					if _, isIdx := u.X.(*ssa.IndexAddr); isIdx {
-						fromSplit = true
-					}
-				}
-			}
+			fromSplit, raw := classifyPiece(c.Call.Args[0], map[ssa.Value]bool{})
 			key := core.FuncName(fn) + "/unescape"
 			if raw || !fromSplit {
 				r.Violated(key, p.InstrPos(c), "the query is percent-decoded before it is split into pairs: an escaped & or = inside a value becomes a separator, so parameters are split, truncated or invented")
@@ -812,4 +790,66 @@ func ruleQueryPairwise(r *core.Reporter) {
 		}
 	}
 	r.Floor("unescape sites", n, 2)
+}
+
+// classifyPiece follows a string value back to where it was cut out of the raw query: fromSplit when every
+// origin is one pair (left part of a Cut on "&", an element of a Split) or a part of a pair (Cut on "=", a sub-slice
+// of a pair); raw when some origin is the function's parameter or the still-unsplit remainder.
+func classifyPiece(v ssa.Value, seen map[ssa.Value]bool) (fromSplit, raw bool) {
+	if v == nil || seen[v] {
+		return false, false
+	}
+	seen[v] = true
+	switch x := v.(type) {
+	case *ssa.Parameter:
+		return false, true
+	case *ssa.Phi:
+		any := false
+		for _, e := range x.Edges {
+			fs, rw := classifyPiece(e, seen)
+			if rw {
+				return false, true
+			}
+			any = any || fs
+		}
+		return any, false
+	case *ssa.Slice:
+		return classifyPiece(x.X, seen)
+	case *ssa.Extract:
+		if c, ok := x.Tuple.(*ssa.Call); ok && ir.IsCallTo(c, "strings.Cut") {
+			sep, _ := ir.ConstString(c.Call.Args[1])
+			if sep == "&" {
+				if x.Index == 0 {
+					return true, false // one pair
+				}
+				return false, true // the remainder is still the raw query
+			}
+			return classifyPiece(c.Call.Args[0], seen)
+		}
+	case *ssa.UnOp:
+		if x.Op == token.MUL {
+			if ia, ok := x.X.(*ssa.IndexAddr); ok {
+				if c, isC := ia.X.(*ssa.Call); isC && ir.IsCallTo(c, "strings.Split", "strings.SplitN") {
+					return true, false
+				}
+			}
+			if al, ok := x.X.(*ssa.Alloc); ok {
+				// local variable assigned on several paths (var key, value string)
+				any := false
+				for _, rr := range ir.Referrers(al) {
+					if st, isSt := rr.(*ssa.Store); isSt && st.Addr == ssa.Value(al) {
+						fs, rw := classifyPiece(st.Val, seen)
+						if rw {
+							return false, true
+						}
+						any = any || fs
+					}
+				}
+				return any, false
+			}
+		}
+	case *ssa.Const:
+		return false, false
+	}
+	return false, false
 }
